@@ -13,6 +13,38 @@ DEFAULT_CFG = [True] * 5
 OFF_CFG = [False] * 5
 
 
+# String columns are modelled as Int codes: code c <-> the string "k%03d" % (c + 500); fixed width keeps the
+# lexicographic order of the strings equal to the numeric order of the codes.
+REL_TYPES = {"s": "IS", "t": "SS"}          # relation -> per-column type (I = Int64, S = String)
+STR_SHIFT = 500
+
+
+def str_of(code):
+    return "k%03d" % (code + STR_SHIFT)
+
+
+def code_of(st):
+    if isinstance(st, str) and len(st) == 4 and st[0] == "k" and st[1:].isdigit():
+        return int(st[1:]) - STR_SHIFT
+    return st
+
+
+def encode_edb(edb):
+    out = {}
+    for rel, rows in edb.items():
+        ty = REL_TYPES.get(rel)
+        if not ty:
+            out[rel] = rows
+            continue
+        out[rel] = [[str_of(v) if (i < len(ty) and ty[i] == "S" and isinstance(v, int)) else v
+                     for i, v in enumerate(row)] for row in rows]
+    return out
+
+
+def decode_rows(rows):
+    return [[code_of(v) for v in row] for row in rows]
+
+
 def cfg_str(c):
     return "".join("1" if b else "0" for b in c)
 
@@ -33,6 +65,9 @@ class Bridge:
         if self.p is None or self.p.poll() is not None:
             self.start()
         t0 = time.time()
+        if isinstance(j.get("edb"), dict):
+            j = dict(j)
+            j["edb"] = encode_edb(j["edb"])
         try:
             self.p.stdin.write(json.dumps(j) + "\n")
             self.p.stdin.flush()
@@ -88,7 +123,7 @@ def rows_to_set(rows):
 
 def answer_set(ans):
     out = set()
-    for row in ans:
+    for row in decode_rows(ans):
         if any(not isinstance(v, int) for v in row):
             out.add(tuple(json.dumps(v, sort_keys=True) if not isinstance(v, int) else v for v in row))
         else:
@@ -101,7 +136,7 @@ def seeds_of(reply, edb_names):
     s = {}
     for rel, rows in reply.get("inputs_after", {}).items():
         if rel not in edb_names:
-            s[rel] = rows
+            s[rel] = decode_rows(rows)
     return s
 
 
